@@ -602,3 +602,119 @@ func CorpusProposalWithoutJustification(o sink) {
 	r.o.Sample(fmt.Sprintf("%s: locked replica 1 on the unjustified proposal: interrupted=%v why=%s; commits: %s", r.name, res1.Interrupted, res1.Why, commitsStr(s)))
 	r.end()
 }
+
+// CorpusUndersizedCertificates: a committee whose total power is 2 mod 3 (where 2*(T/3)+1 is one unit below the +2/3
+// threshold 2T/3+1). The Byzantine leader equivocates — block X to one half of the correct replicas, block Y to the other —
+// every Byzantine validator signs on both sides, and the leader hand-assembles, for each block, the certificate of exactly
+// that half plus the Byzantine signers: its power is one unit below +2/3. Replicas must treat such certificates as partial
+// (evidence, never a justification): nobody locks, nobody commits. A replica-side threshold that is one unit too low lets
+// both halves lock and commit their block.
+func CorpusUndersizedCertificates(o sink, powers []uint64, byz, half1, half2 []int) {
+	n := len(powers)
+	cfg := bftsim.Config{N: n, Powers: powers, Byz: byz, Root0: 10}
+	leader := byz[0]
+	cfg.Salt = findSalt(cfg, map[bftsim.VR]func(int) bool{{Root: 10, Round: 0}: func(i int) bool { return i == leader }})
+	r := newRun(o, fmt.Sprintf("corpus/undersized-certificates/powers%v-byz%v", powers, byz), cfg)
+	r.sigSuffix = "undersized-certificate"
+	s := r.s
+	A := all(s)
+	view := bftsim.VR{Root: 10, Round: 0}
+	in := func(set []int, x int) bool {
+		for _, y := range set {
+			if y == x {
+				return true
+			}
+		}
+		return false
+	}
+	r.elect(A, nil)
+	if _, _, err := s.Nodes[leader].B.GetMajorityVote(); err != nil || s.Nodes[leader].B.Phase != bft.Propose {
+		r.o.Count("undersized-certificates:setup-failed")
+		r.end()
+		return
+	}
+	// two proposals, one per half
+	e1 := s.ByzProposeWith(leader, nil)
+	e2 := s.ByzProposeWith(leader, nil)
+	s.Nodes[leader].B.Phase = bft.ProposeVote
+	r.log("byz %d equivocates: block X to %v, block Y to %v", leader, half1, half2)
+	r.o.Count("byz:propose:equivocate-to-halves")
+	r.flush()
+	keep := map[*bftsim.Envelope]bool{}
+	for _, e := range e1 {
+		keep[e] = in(half1, e.To)
+	}
+	for _, e := range e2 {
+		keep[e] = in(half2, e.To)
+	}
+	r.deliverAll(func(e *bftsim.Envelope) bool { return keep[e] })
+	r.dropAll()
+	var correct []int
+	for _, i := range A {
+		if !in(byz, i) {
+			correct = append(correct, i)
+		}
+	}
+	r.phases(correct) // PROPOSE
+	r.phases(correct) // PROPOSE_VOTE: each half votes for its block
+	blkOf := func(half []int) int {
+		b := s.Nodes[half[0]].B
+		return s.BlockID(b.GetBlockHash(), b.Results.Hash())
+	}
+	// assemble, per half, the certificate of that half's votes plus the Byzantine signatures; hand it out; repeat for COMMIT
+	collect := func(kind string, half []int) []*bft.Message {
+		var out []*bft.Message
+		for _, e := range s.Queue {
+			if e.Kind == kind && e.To == leader && in(half, e.From) {
+				out = append(out, e.Msg)
+			}
+		}
+		return out
+	}
+	stage := func(votePhase, msgPhase lib.Phase, kind string) {
+		type side struct {
+			half []int
+			qc   *lib.QuorumCertificate
+		}
+		var sides []side
+		for _, half := range [][]int{half1, half2} {
+			votes := collect(kind, half)
+			blk := blkOf(half)
+			for _, bz := range byz {
+				e := s.ByzVote(bz, votePhase, view, blk, leader, leader)
+				votes = append(votes, e.Msg)
+			}
+			sides = append(sides, side{half, s.ByzCertForCommittee(votes, view.Root)})
+		}
+		r.flush()
+		r.dropAll()
+		for _, sd := range sides {
+			if sd.qc == nil {
+				continue
+			}
+			for _, e := range s.ByzLeaderMsg(leader, msgPhase, view, sd.qc, sd.half) {
+				r.deliver(e)
+			}
+			s.Take(func(*bftsim.Envelope) bool { return true })
+		}
+		r.log("byz %d hands each half a %s message whose certificate is signed by that half and the Byzantine validators only", leader, bftsim.PhaseName(msgPhase))
+		r.o.Count("byz:undersized-certificate:" + bftsim.PhaseName(msgPhase))
+	}
+	stage(lib.Phase_PROPOSE_VOTE, lib.Phase_PRECOMMIT, "PROPOSE_VOTE")
+	r.phases(r.inRound(correct, 0)) // PRECOMMIT (no-op)
+	r.phases(r.inRound(correct, 0)) // PRECOMMIT_VOTE
+	locked := 0
+	for _, i := range correct {
+		if s.Nodes[i].B.HighQC != nil {
+			locked++
+		}
+	}
+	if len(r.inRound(correct, 0)) > 0 {
+		stage(lib.Phase_PRECOMMIT_VOTE, lib.Phase_COMMIT, "PRECOMMIT_VOTE")
+		r.phases(r.inRound(correct, 0)) // COMMIT (no-op)
+		r.phases(r.inRound(correct, 0)) // COMMIT_PROCESS
+	}
+	r.o.Sample(fmt.Sprintf("%s: total %d, +2/3 threshold %d, certificates of power below it handed to both halves: %d correct replicas locked; commits: %s",
+		r.name, s.ValSet.TotalPower, s.ValSet.MinimumMaj23, locked, commitsStr(s)))
+	r.end()
+}
